@@ -1,4 +1,3 @@
-(* WIP *)
 (* C35 — the connected-client limit.  Interleaving model of the limit check and the counter
    update in server.go attachClient, specification, engine.  No proofs in this file.
 
